@@ -51,7 +51,7 @@ class DupMonitor(Monitor):
         cn, d, o, snap0, dropped0 = pre
         w = self.w
         if o is None:
-            if result:
+            if result is True:
                 self.n_acc[cn] += 1
                 acc = self.accepted[cn]
                 acc[d] = (self.n_acc[cn], int(hdr.seq))
@@ -107,6 +107,8 @@ def gen_dups(rng, i, tier, wrap=False):
         case["plan"] = plan
         case["wrap"] = True
         return case
+    if i % 25 == 7:
+        return gen_fragflood(rng, i, tier)
     case = gen_traffic(rng, i, tier, retries=(0, 1, 1, -1, -1), cb_p=0.2, n_msgs=rng.choice([6, 12, 25, 60]))
     cfg, plan = case["cfg"], case["plan"]
     n = len(cfg["clients"])
@@ -135,6 +137,37 @@ def gen_dups(rng, i, tier, wrap=False):
     return case
 
 
+def gen_fragflood(rng, i, tier):
+    """Several hundred fragmented messages on one connection (more than the receiver remembers as completed),
+    then fragmented retried messages whose acks are all lost for longer than the message timeout."""
+    case = gen_traffic(rng, i, tier, nclients=1, n_msgs=3, long_latency=False, fault=False, entry=rng.choice(["bare", "twisted"]))
+    cfg = case["cfg"]
+    cfg["mtu"] = rng.choice([512, 513, 576])
+    cap1 = limits(cfg["mtu"])["cap1"]
+    cfg["clients"][0]["dt"] = 1 / 60
+    cfg["server"]["interval"] = 1 / 60
+    cfg["latency"], cfg["jitter"] = 0.005, 0.0
+    who = rng.choice(["send", "ssend"])
+    plan = [op for op in case["plan"] if op["op"] == "connect"]
+    n = rng.choice([240, 262, 300])
+    t = 1.0
+    for j in range(n):
+        plan.append({"op": who, "c": 0, "t": round(t, 4), "len": cap1 + 1 + rng.randrange(0, 40), "kind": rng.choice([0, 3]),
+                     "retry": 0, "cb": False, "api": "send"})
+        t += 2.2 / 60
+    t += 0.5
+    for j in range(rng.choice([1, 2, 4])):
+        plan.append({"op": who, "c": 0, "t": round(t + 0.01 * j, 4), "len": cap1 + 1 + rng.randrange(0, 900), "kind": 0,
+                     "retry": rng.choice([1, -1]), "cb": False, "api": "send"})
+    # data arrives, every ack is lost for longer than the message timeout
+    back = {"send": "src", "ssend": "dst"}[who]
+    cfg["phases"] = [{"t0": t - 0.05, "t1": t + 1.6, back: "S", "cut": True}]
+    cfg["t_heal"] = t + 1.6
+    cfg["duration"] = round(t + 1.6 + 6.0, 3)
+    case["plan"] = plan
+    return case
+
+
 def install_stream(w, case):
     """Steady small-message stream used by the wrap runs (keeps the seq counters running at the send cap)."""
     st = case["cfg"].get("stream")
@@ -142,8 +175,10 @@ def install_stream(w, case):
         return
     k = w.k
 
+    stop = st.get("stop", w.end_time - 2.0)
+
     def pump(who):
-        if k.now >= w.end_time - 2.0 or w.stopped:
+        if k.now >= stop or w.stopped:
             return
         cn = w.clients[0]
         op = {"len": st["len"], "retry": st["retry"], "cb": False, "api": "send", "kind": 0}
@@ -151,7 +186,9 @@ def install_stream(w, case):
             if cn.client is not None and cn.client.connected():
                 w.app_send("c0", cn.client, op)
         k.after(st["period"], cn.node, pump, who)
-    k.at(1.0, w.clients[0].node, pump, "c")
+    k.at(st.get("start", 1.0), w.clients[0].node, pump, "c")
+    if st.get("client_only"):
+        return
     # the server side streams from its handler thread (scripted like any server op)
     t = 1.0
     while t < w.end_time - 2.0:
@@ -165,6 +202,7 @@ class C04(UdpCheck):
     ncases = {"quick": 300, "thorough": 24000}
     per_run_wall_s = 400
     chunk = 1
+    shrink_s = 60
     rule = ("case = traffic (all retry modes, bulk small messages that move the 256-message window, both directions) under "
             "duplication with delays from 0 to seconds, reordering, ack-path loss so that every retry mode retransmits, "
             "one-way partitions, and attacker replays of recorded datagrams after k newer ones for k around 32, 256 and up to "
